@@ -98,6 +98,7 @@ def ex_file(ctx, case, seed=0):
     tmp = tempfile.mkdtemp(prefix="c11-", dir=os.environ.get("VERIF_TMP", "/var/tmp"))
     path = os.path.join(tmp, "forecast.dat")
     rc = {"exec": "file", "args": {"case": case, "seed": seed}}
+    ctx.current_case = rc
     lat = case["lat"]
     tags = {"layout": "cartesian", "swap": case["swap"], "flags": lat.get("flags") is not None, "single_row_file": len(lat["cells"]) * case["nm"] == 1,
             "single_row_or_column": bool(lat["nx"] == 1 or lat["ny"] == 1), "dh": lat["dh"], "n_mag": case["nm"]}
@@ -201,6 +202,7 @@ def ex_history(ctx, ops, seed=0):
     fore = fixtures.gridded_forecast(data.copy(), reg, mags, start=start, end=end)
     fore._verif_digest = fore._data.tobytes()
     rc = {"exec": "history", "args": {"ops": list(ops), "seed": seed}}
+    ctx.current_case = rc
     admissible = {1.0}
     ctx.count(1)
     mid = datetime.datetime(2010, 9, 17, tzinfo=UTC)
@@ -250,6 +252,7 @@ def ex_quadtree(ctx, kind, seed=0):
     rates = 10 ** r.uniform(-5, 1, (len(qk), nm))
     tmp = tempfile.mkdtemp(prefix="c11q-", dir=os.environ.get("VERIF_TMP", "/var/tmp"))
     rc = {"exec": "quadtree", "args": {"kind": kind, "seed": seed}}
+    ctx.current_case = rc
     tags = {"layout": "quadtree-" + kind, "n_mag": nm, "single_row_file": len(qk) * nm == 1}
     try:
         if kind == "ascii":
